@@ -93,7 +93,7 @@ func drawC06(rt *rapid.T, tier string) C06Scenario {
 	}
 	if rapid.IntRange(0, share-1).Draw(rt, "real") == 0 {
 		o := srvDrawOpts{backends: []string{"cdb", "cdb", "rdb1", "rdb2"}, maxClients: 3, maxQueries: 4, maxOps: 5,
-			faults: []string{"missing", "garbage", "nokey", "inject", "lowio", "lowio"}}
+			faults: []string{"missing", "garbage", "nokey", "inject", "lowio", "lowio"}, proc: 3}
 		sc := drawSrv(rt, o)
 		pos := rapid.IntRange(0, len(sc.Ops)).Draw(rt, "close_at")
 		sc.Ops = append(append([]SrvOp{}, sc.Ops[:pos]...), SrvOp{Kind: "close"})
@@ -206,6 +206,9 @@ func runC06Real(t *testing.T, sc *SrvScenario, keep bool) *core.Result {
 			res.Add("leak", "leak|rocksdb-log-dir", fmt.Sprintf("%d RocksDB secondary log director(ies) left behind beyond the %d of failed opens: a secondary instance was never closed", after-before, failedOpens))
 		}
 		res.Probe("real_backend_history_with_shutdown")
+		if sc.Proc {
+			res.Probe("whole_process_history_with_shutdown")
+		}
 	}
 	res.Nontrivial = h.Mon.Reloads > 0 || res.Switches > 0
 	return res
